@@ -1,0 +1,25 @@
+//go:build verif
+
+package tmstate
+
+import "github.com/gordian-engine/gordian/tm/tmengine/internal/tmstate/internal/tsi"
+
+// verifSMHook is installed by the /verif conformance harness (build tag "verif" only).
+// It is called in the state machine goroutine at the end of each handled event.
+var verifSMHook func(m *StateMachine, ev string, rlc *tsi.RoundLifecycle)
+
+func verifSMTrace(m *StateMachine, ev string, rlc *tsi.RoundLifecycle) {
+	if verifSMHook != nil {
+		verifSMHook(m, ev, rlc)
+	}
+}
+
+// verifRTGateHook is a scheduler gate for the StandardRoundTimer background goroutine:
+// it is called immediately before each of its two selects.
+var verifRTGateHook func(t *StandardRoundTimer, point string)
+
+func verifRTGate(t *StandardRoundTimer, point string) {
+	if verifRTGateHook != nil {
+		verifRTGateHook(t, point)
+	}
+}
